@@ -88,7 +88,48 @@ def _simcam_sources(t):
     t.repo(CORE + "acquire-core-logger/logger.c")
 
 
+def _rt_sources(t):
+    t.verif("harness/rt/rt.cpp")
+    t.verif("harness/rt/vmock.cpp")
+    t.verif("engine/vsim/vsim.cpp")
+    t.repo(RT + "acquire.c")
+    t.repo(RT + "runtime/source.c")
+    t.repo(RT + "runtime/sink.c", ["-Dchannel_new=vh_channel_new"])
+    t.repo(RT + "runtime/filter.c", ["-Dchannel_new=vh_channel_new"])
+    for f in ["runtime/channel.c", "runtime/vfslice.c", "runtime/frame_iterator.c", "runtime/throttler.c"]:
+        t.repo(RT + f)
+    for f in ["camera.c", "storage.c", "driver.c", "loader.c", "device.manager.cpp"]:
+        t.repo(CORE + "acquire-device-hal/device/hal/" + f)
+    for f in ["storage.c", "components.c", "device.c"]:
+        t.repo(CORE + "acquire-device-properties/device/props/" + f)
+    t.repo(CORE + "acquire-core-platform/linux/platform.c", PLATFORM_RENAMES)
+    t.repo(CORE + "acquire-core-logger/logger.c")
+
+
+def _rt_extra():
+    out = []
+    import os
+    from vbuild import BUILD
+    for e in ("rc", "rp"):
+        t = Target("rt_tramp_" + e, "asan")
+        t.verif("engine/vmock_trampoline.c")
+        t.shared = True
+        t.out = os.path.join(BUILD, "asan", "rt_" + e, "libacquire-driver-zarr.so")
+        out.append(t)
+    return out
+
+
 HARNESSES = {
+    "rt": {
+        "props": ["C04", "C05", "C06", "C07", "C08", "C09", "C10"],
+        "sources": _rt_sources,
+        "engines": ["rc", "rp"],
+        "link_flags": ["-rdynamic"],
+        "extra_targets": _rt_extra,
+        "level": {"C09": "fault_enumeration"},
+        "quick": {"rc_cases": 1500, "rc_size": 40},
+        "thorough": {"rc_cases": 25000, "rc_size": 60},
+    },
     "simcam": {
         "props": ["C17", "C18"],
         "sources": _simcam_sources,
